@@ -18,7 +18,7 @@ def configs(ctx):
     values = ctx.pick((1, 2), (1, 2, 3))
     max_cells = ctx.pick(8, 12)
     for tag, base in U.templates(ctx.tier):
-        if tag == "P1ij" or (tag == "P8b" and ctx.quick):
+        if tag == "P1ij" or (tag in ("P8b", "EW3") and ctx.quick):
             continue
         perms = U.operand_perms(base)
         if tag == "T4":
